@@ -63,7 +63,9 @@ The fragment (static types mirror what `erg --mode typecheck` infers; probed on 
   Wrap code .w of an expression (what codegen.rs emit_expr wraps the value in; used only by Codegen.v):
       0 none  1 Nat  2 Int  3 Float  4 Str  5 Bool  6 List
   Comparisons get a *guard type* in erg (`{x in {...}}`), which is not wrapped: .guard tracks that
-  (comparison: guard; and/or: both guards; not: operand; variable: its definition).
+  (comparison: guard; not(e): as e; variable: as its unannotated definition; and/or: only if both operands are
+  *syntactically* guards (.sguard: comparison, and/or of such, not(such); a variable never is)).
+  Other probed typing facts: +(Nat) : Int;  `v: Int = <Nat expr>` keeps v : Nat;  Int**Nat and Nat**Int are typed Nat.
 
 =====================================================================================================================
 Wire format (tags) — keep in sync with coq/CoreErg/Syntax.v
@@ -116,11 +118,14 @@ def code_ty(c):
 
 class Ex:
     """expression node: tag, args (list; sub-expressions are Ex), static type ty, guard flag, wrap code w"""
-    __slots__ = ("tag", "args", "ty", "guard", "w", "enum")
+    __slots__ = ("tag", "args", "ty", "guard", "w", "enum", "sguard")
 
-    def __init__(self, tag, args, ty=None, guard=False, w=None, enum=False):
+    def __init__(self, tag, args, ty=None, guard=False, w=None, enum=False, sguard=None):
         self.tag, self.args, self.ty, self.guard = tag, list(args), ty, guard
         self.enum = enum
+        # guard: the erg type is a guard type (not wrapped in Bool); sguard: the expression is *syntactically* a guard
+        # (lower.rs get_guard_type: comparison, and/or of guards, not(guard)) - only that makes an and/or a guard
+        self.sguard = (tag == E_CMP) if sguard is None else sguard
         self.w = wrap_code(ty, guard, tag) if w is None else w
 
     def __repr__(self):
@@ -184,6 +189,7 @@ class Info:
     def __init__(self, kind, ty=None, guard=False, params=None, ret=None, isproc=False, enum=False):
         self.kind, self.ty, self.guard, self.params, self.ret, self.isproc = kind, ty, guard, params, ret, isproc
         self.enum = enum    # erg type is a multi-valued enum {a, b} (from an if-expression): see Gen.noenum
+        self.const = False  # erg knows the value at compile time (singleton type): defined by a literal / a const variable
 
 
 class Gen:
@@ -323,7 +329,7 @@ class Gen:
                 prods += [(4, lambda: self.arith(r.choice([0, 2]), NAT, NAT, d)),
                           (2, lambda: self.arith(r.choice([4, 5]), NAT, NAT, d)),
                           (1, lambda: Ex(E_BIN, [6, self.operand(NAT, d - 1), self.small_nat(0, 3)], NAT)),
-                          (1, lambda: Ex(E_UN, [UN_POS, self.operand(NAT, d - 1)], NAT))]
+                          ]
                 if self.level >= 4 and not self.expr_only:
                     prods.append((1, lambda: self.len_of(d)))
                     prods.append((1, lambda: Ex(E_ABS, [self.operand(INT, d - 1)], NAT)))
@@ -380,7 +386,7 @@ class Gen:
 
     def pos_int(self, d):
         a = self.operand(INT, d - 1)
-        return Ex(E_UN, [UN_POS, a], a.ty)
+        return Ex(E_UN, [UN_POS, a], INT)     # erg: +(Nat) : Int
 
     def arith_ty(self, op, ta, tb):
         if op == 3:
@@ -391,6 +397,23 @@ class Gen:
         if op == 1 and t == NAT:
             return INT
         return t
+
+    def is_const(self, e):
+        """erg can evaluate e at compile time: every variable in it has a singleton type"""
+        ok = [True]
+
+        def f(x):
+            if x.tag == E_VAR and not self.info[x.args[0]].const:
+                ok[0] = False
+            if x.tag in (E_CALL, E_INDEX, E_LEN, E_ABS, E_IF, E_LIST):
+                ok[0] = False
+        f(e)
+        stack = [e]
+        while stack:
+            x = stack.pop()
+            f(x)
+            stack += sub_exprs(x)
+        return ok[0]
 
     def cmp(self, d):
         r = self.rng
@@ -409,15 +432,19 @@ class Gen:
         else:
             ta, tb = r.choice([NAT, INT]), r.choice([NAT, INT])
             op = r.choice([2, 3])
-        return Ex(E_CMP, [op, self.expr(ta, d - 1), self.expr(tb, d - 1)], BOOL, guard=True)
+        a, b = self.expr(ta, d - 1), self.expr(tb, d - 1)
+        # lower.rs get_bin_guard_type: the comparison gets a guard type iff the right operand is a compile-time value
+        g = self.is_const(b)
+        return Ex(E_CMP, [op, a, b], BOOL, guard=g, sguard=g)
 
     def logic(self, d):
         a, b = self.expr(BOOL, d - 1), self.expr(BOOL, d - 1)
-        return Ex(E_LOGIC, [self.rng.randint(0, 1), a, b], BOOL, guard=a.guard and b.guard)
+        g = a.sguard and b.sguard
+        return Ex(E_LOGIC, [self.rng.randint(0, 1), a, b], BOOL, guard=g, sguard=g)
 
     def not_(self, d):
         a = self.expr(BOOL, d - 1)
-        return Ex(E_UN, [UN_NOT, a], BOOL, guard=a.guard)
+        return Ex(E_UN, [UN_NOT, a], BOOL, guard=a.guard, sguard=a.sguard)
 
     def if_expr(self, ty, d):
         c = self.expr(BOOL, d - 1)
@@ -487,9 +514,10 @@ class Gen:
         if not is_list(e.ty) and r.random() < 0.2:
             ann = TYCODE[e.ty]
             if e.ty == NAT and r.random() < 0.3:
-                ann, vty = TYCODE[INT], INT
-            guard = False
+                ann = TYCODE[INT]        # the variable keeps the type of its initialiser (erg wraps it in Nat)
         i = self.fresh(Info("var", vty, guard, enum=e.enum and not ann))
+        self.info[i].const = (e.tag == E_LIT or (e.tag == E_VAR and self.info[e.args[0]].const)
+                              or (e.tag == E_UN and e.args[0] == UN_NOT and e.args[1].tag == E_LIT))
         st = St(S_DEF, [i, ann, e])
         self.bind(i)
         return st
@@ -533,7 +561,7 @@ class Gen:
         r = self.rng
         k = r.random()
         if k < 0.3:
-            return Ex(E_UN, [UN_NOT, self.expr(BOOL, 2)], BOOL)
+            return self.not_(3)
         if k < 0.4:
             vs = self.vars_of(BOOL)
             return self.var(r.choice(vs)) if vs else self.lit(BOOL)
@@ -728,7 +756,7 @@ class Gen:
         a = r.randint(0, 50)
         forms = [Ex(E_CMP, [0, self.small_nat(a, a), self.small_nat(a + 1, a + 9)], BOOL, guard=True),
                  Ex(E_CMP, [5, self.small_nat(a, a), self.small_nat(0, a)], BOOL, guard=True),
-                 Ex(E_LOGIC, [1, self.expr(BOOL, 1), Ex(E_LIT, [L_BOOL, 1], BOOL)], BOOL)]
+                 Ex(E_LOGIC, [1, self.expr(BOOL, 1), Ex(E_LIT, [L_BOOL, 1], BOOL)], BOOL, sguard=False)]
         return r.choice(forms)
 
     def error_stmt(self):
@@ -756,6 +784,14 @@ class Gen:
         if not any(s.tag == S_PRINT for s in prog[-2:]):
             self.budget = 1
             prog.append(self.s_print())
+        if self.expr_only:
+            # erg removes unused definitions (optimisation, property C12): in the stream that is compared with the
+            # model of codegen.rs instruction by instruction every variable is used
+            used = set()
+            walk_exprs(prog, lambda e: used.add(e.args[0]) if e.tag == E_VAR else None)
+            unused = [s.args[0] for s in prog if s.tag == S_DEF and s.args[0] not in used]
+            for k in range(0, len(unused), 4):
+                prog.append(St(S_PRINT, [[self.var(i) for i in unused[k:k + 4]]]))
         if self.runtime_error:
             pos = r.randint(0, len(prog))
             # the inserted statement may only use variables visible at top level at that point: build it in a scope
@@ -1303,7 +1339,7 @@ def default_lit(e):
 
 def clone(x):
     if isinstance(x, Ex):
-        return Ex(x.tag, [clone(y) for y in x.args], x.ty, x.guard, w=x.w, enum=x.enum)
+        return Ex(x.tag, [clone(y) for y in x.args], x.ty, x.guard, w=x.w, enum=x.enum, sguard=x.sguard)
     if isinstance(x, St):
         return St(x.tag, [clone(y) for y in x.args])
     if isinstance(x, list):
